@@ -186,8 +186,8 @@ class C12(Property):
         'rounded to 3 significant digits is C20\'s theorem, the composition (eval of the text) is checked by the oracle only '
         '(from_string(r.string(with_param=True)).param == float("%.3g" % p), parameters over 30 decades)',
         '"; keyword=value" parts: theorems show they do not disturb the stoichiometry/parameter and are handed on verbatim; their evaluation (eval) is oracle-only (name read back)',
-        '"a copy compares equal to its original": the modelled copy is the identity on the (already ordered) dictionaries, so the statement is reflexivity '
-        '(lemma copy_eq in Proofs); the real shallow copy / checks=() path is exercised by the oracle only (r.copy() == r, same class); NaN parameters violate it (finding 7)',
+        '"a copy compares equal to its original": theorem copy_eq over a copy that goes through the constructor\'s _init_stoich with the container kind (dict/OrderedDict/set) modelled; '
+        'that the copy shares no mutable state, keeps name/ref/data and the class is oracle-only; NaN parameters violate equality (finding 7, parameter equality is reflexive in the model)',
         'decimal coefficients: theorem for texts "n.ddd" with n >= 1 and at most 15 digits (exact value); exponent forms (1e2), leading-dot forms, signs, '
         'underscores and the float rounding of sums of non-dyadic decimals are correspondence-only',
         'keys that contain the arrow token (e.g. C=O in an equilibrium line) or ";" are excluded from parse_written (witness: token_in_key_missplit_witness); '
@@ -215,7 +215,7 @@ class C12(Property):
     anchors = (('chempy/util/parsing.py', '_parse_multiplicity'), ('chempy/util/parsing.py', '_is_inactive_term'),
                ('chempy/util/parsing.py', 'to_reaction'), ('chempy/chemistry.py', 'Reaction._init_stoich'),
                ('chempy/chemistry.py', 'Reaction.__init__'), ('chempy/chemistry.py', 'Reaction.from_string'),
-               ('chempy/chemistry.py', 'Reaction.copy'), ('chempy/chemistry.py', 'Reaction.__eq__'),
+               ('chempy/chemistry.py', 'Reaction.copy'), ('chempy/chemistry.py', 'Reaction.string'), ('chempy/chemistry.py', 'Reaction.__eq__'),
                ('chempy/chemistry.py', 'Reaction.check_any_effect'), ('chempy/chemistry.py', 'Reaction.check_all_positive'),
                ('chempy/chemistry.py', 'Reaction.check_all_integral'), ('chempy/chemistry.py', 'Reaction.net_stoich'),
                ('chempy/chemistry.py', 'Reaction.keys'),
@@ -447,6 +447,37 @@ class C12(Property):
                 'comment_tokens': cts, 'eqsystem': token == '=' and rng.random() < 0.6,
                 'opt': rng.choice(['checks', 'checks', 'dont_check', 'factory_default'])}
 
+    def _copy_case(self, rng, tier):
+        """a reaction built from containers of arbitrary kind and order, possibly edited in place, then copied"""
+        token = '->' if rng.random() < 0.5 else '='
+        pool = []
+        while len(pool) < rng.randint(3, 9):
+            k = self._key(rng, tier)
+            if admissible(k, token) and k not in pool:
+                pool.append(k)
+        kinds, sides = [], {}
+        for nm, p in (('reac', 1.0), ('prod', 1.0), ('inact_reac', 0.3), ('inact_prod', 0.3)):
+            kind = rng.choice(['dict', 'ordered', 'ordered', 'set'])
+            ks = rng.sample(pool, min(len(pool), rng.randint(0 if nm.startswith('inact') else 1, 4))) if rng.random() < p else []
+            if kind == 'dict':
+                ks = ks[:]           # insertion order of a plain dict is irrelevant: the constructor sorts
+            items = [[k, 1 if kind == 'set' else self._coef(rng), False] for k in ks]
+            kinds.append(kind)
+            sides[nm] = items
+        edits = []
+        for _ in range(rng.choice([0, 0, 1, 2])):
+            side = rng.choice(['reac', 'prod'])
+            if sides[side]:
+                old = rng.choice(sides[side])[0]
+                new = rng.choice(pool + ['Q9', 'aa'])
+                if not any(e[0] == side for e in edits) and new != old:
+                    edits.append([side, old, new])
+        c = {'kind': 'copy', 'op': 'copy', 'arrow': token, 'kinds': kinds, 'edits': edits,
+             'name': rng.choice([None, None, 'R1', 'my reaction']), 'data': rng.choice([None, {'ref': [1, 2]}, {'T': 298}]),
+             'pval': rng.choice([None, None, float(self._param_text(rng)), rng.randint(0, 10 ** 6)])}
+        c.update(sides)
+        return c
+
     def _system_rt_case(self, rng, tier):
         token = '->' if rng.random() < 0.7 else '='
         objs = []
@@ -488,6 +519,8 @@ class C12(Property):
                 cases.append(self._written_case(rng, tier))
             elif r < 0.58:
                 cases.append(self._raw_case(rng, tier))
+            elif r < 0.62:
+                cases.append(self._copy_case(rng, tier))
             elif r < 0.68:
                 cases.append(self._print_case(rng, tier))
             elif r < 0.78:
@@ -517,6 +550,10 @@ class C12(Property):
         if k == 'print':
             m = self._mobj(c)
             m.update({'op': 'print', 'arrow': c['arrow'], 'with_param': c['with_param'], 'with_name': c['with_name'], 'pval': c.get('pval')})
+            return m
+        if k == 'copy':
+            m = self._mobj(c)
+            m.update({'op': 'copy', 'arrow': c['arrow'], 'kinds': c['kinds'], 'edits': c['edits'], 'pval': c.get('pval'), 'data': c.get('data')})
             return m
         if k == 'roundtrip':
             m = self._mobj(c)
@@ -570,6 +607,20 @@ class C12(Property):
             kw['comment_tokens'] = tuple(c['comment_tokens'])
         return cls.from_string(c['text'], None, rxn_parse_kwargs={'globals_': globals_}, **kw)
 
+    def _build_copy_case(self, c):
+        """the real object of a copy case: containers of the given kinds, constructor without checks, in-place edits"""
+        from collections import OrderedDict
+        conts = []
+        for kind, nm in zip(c['kinds'], ('reac', 'prod', 'inact_reac', 'inact_prod')):
+            items = [(k, float(v) if fl else v) for k, v, fl in c[nm]]
+            conts.append({'dict': dict, 'ordered': OrderedDict}[kind](items) if kind != 'set' else {k for k, _ in items})
+        r = self._cls(c['arrow'])(conts[0], conts[1], c.get('pval'), inact_reac=conts[2], inact_prod=conts[3], name=c.get('name'),
+                                  data=c.get('data'), checks=())
+        for side, old, new in c['edits']:
+            d = getattr(r, side)
+            d[new] = d.pop(old)
+        return r
+
     def impl(self, c):
         import chempy
         from chempy.util import parsing
@@ -608,6 +659,11 @@ class C12(Property):
                 except Exception as e:
                     return err_tag(e)
                 return str(r2 == r)
+            if op == 'copy':
+                r = self._build_copy_case(c)
+                cp = r.copy()
+                return '%s %s %s %s %s "%s"' % (cp == r, show_dict(cp.reac), show_dict(cp.prod), show_dict(cp.inact_reac),
+                                                show_dict(cp.inact_prod), esc(cp.string(with_param=True, with_name=True)))
             if op == 'copy_eq':
                 r = self._build(c, checks=())
                 return str(r.copy() == r)
@@ -748,6 +804,31 @@ class C12(Property):
             if r.copy() != r:
                 return 'copy differs from original for %r' % c['line']
             return None
+        if k == 'copy':
+            import copy as _copy
+            r = self._build_copy_case(c)
+            cp = r.copy()
+            if not (cp == r) or cp != r:
+                return 'copy != original for %s built from %s containers %r / %r (edits %r)' % (
+                    type(r).__name__, c['kinds'], list(r.reac.items()), list(r.prod.items()), c['edits'])
+            if type(cp) is not type(r):
+                return 'copy changed the class'
+            for kw in ({}, {'with_param': True}, {'with_param': True, 'with_name': True}):
+                if cp.string(**kw) != r.string(**kw):
+                    return 'copy prints %r, original %r' % (cp.string(**kw), r.string(**kw))
+            for attr in ('reac', 'prod', 'inact_reac', 'inact_prod'):
+                if list(getattr(cp, attr).items()) != list(getattr(r, attr).items()):
+                    return 'copy has %s %r, original %r' % (attr, list(getattr(cp, attr).items()), list(getattr(r, attr).items()))
+            if cp.name != r.name or cp.ref != r.ref or cp.data != r.data or not (cp.param == r.param):
+                return 'copy lost name/ref/data/param'
+            before = (list(r.reac.items()), list(r.prod.items()), _copy.deepcopy(r.data), list(r.inact_reac.items()))
+            cp.reac['__new__'] = 7
+            cp.prod.clear()
+            cp.inact_reac['__x__'] = 1
+            cp.data['__k__'] = 1
+            if (list(r.reac.items()), list(r.prod.items()), r.data, list(r.inact_reac.items())) != before:
+                return 'mutating the copy changed the original (shared containers)'
+            return None
         if k == 'roundtrip':
             valid = any(True for _ in c['reac'] + c['prod'])
             try:
@@ -844,6 +925,10 @@ class C12(Property):
             return 'written:terms%s%s' % ('0-2' if nt <= 2 else '3-6' if nt <= 6 else '7+', ''.join(':' + t for t in tags))
         if k == 'prim':
             return 'prim:' + c['op']
+        if k == 'copy':
+            return 'copy:' + ('unsorted-ordered' if any(kd == 'ordered' and [x[0] for x in c[nm]] != sorted(x[0] for x in c[nm])
+                                                        for kd, nm in zip(c['kinds'], ('reac', 'prod', 'inact_reac', 'inact_prod')))
+                              else 'edited' if c['edits'] else 'sorted') + (':eq' if c['arrow'] == '=' else '')
         return k
 
     def nontrivial(self, c):
